@@ -23,8 +23,8 @@ import random
 
 PROPERTY = "C14"
 TIERS = {
-    "quick": dict(seeds=128, soft_s=170, hard_s=600, per_seed_s=300, init_s=300, k=2),
-    "thorough": dict(seeds=12800, soft_s=3000, hard_s=4200, per_seed_s=400, init_s=300, k=4),
+    "quick": dict(seeds=160, soft_s=170, hard_s=1500, per_seed_s=900, init_s=600, k=2),
+    "thorough": dict(seeds=12800, soft_s=3000, hard_s=5400, per_seed_s=1200, init_s=600, k=4),
 }
 RULE = ("one evaluation = one staged join_pmappings call (all accelerations on) on the pmappings of a "
         "generated 2-3 Einsum spec under one seeded schedule, compared with one exact join of the same spec "
@@ -365,6 +365,19 @@ def check_run(exact, pm_bytes, params, cfg, tape):
     return classes, sim, tr, fired
 
 
+def exec_prefix(exact, pm_bytes, params, sc, last_tape_values):
+    """History matters (process caches): replay the runs before the failing one, then it."""
+    from sim import common
+    for cfg in sc["runs"][:-1]:
+        check_run(exact, pm_bytes, params, cfg, _mk_tape(cfg))
+        common.purge_scratch()
+    cfg = sc["runs"][-1]
+    t = _mk_tape(cfg, replay=last_tape_values)
+    cl, sim, tr, fired = check_run(exact, pm_bytes, params, cfg, t)
+    common.purge_scratch()
+    return cl, sim, tr, fired, t
+
+
 def _mk_tape(cfg, replay=None):
     from sim.tape import Tape
     if replay is not None:
@@ -420,23 +433,20 @@ def run_seed(seed, ctx):
             vclass, detail = next(iter(classes.items()))
 
             def runner(sc2, tv):
-                cfg2 = sc2["runs"][0]
-                t = _mk_tape(cfg2, replay=tv)
-                cl, _, _, _ = check_run(exact, pm_bytes, params, cfg2, t)
-                common.purge_scratch()
+                cl, _, _, _, t = exec_prefix(exact, pm_bytes, params, sc2, tv)
                 return set(cl), t.values()
 
-            msc, mtv, nruns = minimize(dict(sc, runs=[cfg]), tape.values(), runner, vclass, _simplify,
-                                       max_runs=40, max_s=float(ctx["cfg"].get("minimize_s", 90)),
-                                       group_by_site=True)
-            cfgm = msc["runs"][0]
-            t = _mk_tape(cfgm, replay=mtv)
-            cl, simm, trm, firedm = check_run(exact, pm_bytes, params, cfgm, t)
-            common.purge_scratch()
+            jj = sc["runs"].index(cfg)
+            msc, mtv, nruns = minimize(dict(sc, runs=sc["runs"][:jj + 1]), tape.values(), runner, vclass,
+                                       _simplify, max_runs=40,
+                                       max_s=float(ctx["cfg"].get("minimize_s", 90)), group_by_site=True)
+            cfgm = msc["runs"][-1]
+            cl, simm, trm, firedm, t = exec_prefix(exact, pm_bytes, params, msc, mtv)
             key = f"{vclass}|W={'1' if cfgm['W'] == 1 else 'N'}|fault={cfgm.get('fault')}"
             res["violations"].append({
                 "class": vclass, "key": key, "detail": cl.get(vclass, detail) +
-                f" [rounds: {trm.state['rounds']}; W={cfgm['W']}; fault: {firedm}]",
+                f" [rounds: {trm.state['rounds']}; W={cfgm['W']}; fault: {firedm}; runs replayed before "
+                f"it: {len(msc['runs']) - 1}]",
                 "replay": {"scenario": msc, "tape": mtv, "events_sha": t.event_digest(),
                            "minimize_runs": nruns}})
     res["events_sha"] = hashlib.sha1("".join(shas).encode()).hexdigest()
@@ -449,10 +459,15 @@ def run_seed(seed, ctx):
 
 
 def _simplify(sc):
-    cfg = sc["runs"][0]
+    runs = sc["runs"]
+    if len(runs) > 1:
+        yield dict(sc, runs=runs[-1:])
+        for i in range(len(runs) - 1):
+            yield dict(sc, runs=runs[:i] + runs[i + 1:])
+    cfg = runs[-1]
 
     def w(**kw):
-        return dict(sc, runs=[dict(cfg, **kw)])
+        return dict(sc, runs=runs[:-1] + [dict(cfg, **kw)])
     if cfg.get("fault"):
         yield w(fault=None)
     if cfg["clock_jumpy"]:
@@ -476,8 +491,6 @@ def replay(rp, ctx):
     params = sc["params"]
     pm_bytes, pm_exact_bytes, spec, info = make_inputs(params, workdir)
     exact, _ = exact_join(pm_exact_bytes, params)
-    cfg = sc["runs"][0]
-    t = _mk_tape(cfg, replay=rp["tape"])
-    classes, sim, tr, fired = check_run(exact, pm_bytes, params, cfg, t)
+    classes, sim, tr, fired, t = exec_prefix(exact, pm_bytes, params, sc, rp["tape"])
     return {"violations": [{"class": c, "key": c, "detail": d} for c, d in classes.items()],
             "events_sha": t.event_digest()}
